@@ -84,6 +84,10 @@ func (e *engine) Generate(r *lib.Rng, tier string, i int) any {
 		c, _ := g.base(r.Range(1, 2), 3, false)
 		c.Note = "malformed:" + g.malformed(c)
 		return c
+	case r.Chance(1, 10):
+		if c := g.nilCase(); c != nil {
+			return c
+		}
 	}
 	c, _ := g.base(r.Range(1, maxDecls), maxMaps, false)
 	return c
